@@ -7,6 +7,52 @@ from ..runner import Config
 SCHED = "zcash_pool_migration/src/scheduling.rs"
 ZIP318 = "components/zcash_protocol/src/zip318.rs"
 STATE = "zcash_pool_migration/src/state.rs"
+STORE = "zcash_client_sqlite/src/pool_migration/store.rs"
+OI = "zcash_client_sqlite/src/pool_migration/orchard_ironwood.rs"
+
+# the columns of the normalised tables, as coq/C18/Store.v models them (payload columns the
+# model omits are listed too: a column that appears, disappears or moves fails the run)
+TX_COLUMNS = ["migration_id", "transfer_id", "kind", "kind_layer", "kind_index", "kind_crossing", "pczt",
+              "scheduled_height", "expiry_height", "anchor_boundary", "state", "txid", "mined_height",
+              "lock_owner", "unsatisfiable_at", "unsatisfiable_kind", "broadcast_failure_at"]
+DEP_COLUMNS = ["migration_id", "transfer_id", "ordinal", "depends_on_transfer_id"]
+MIG_COLUMNS = ["id", "account_id", "status", "note_split_fee_buffer", "note_split_change", "note_split_prep_fees",
+               "note_split_total_input", "note_split_total_migratable", "anchor_bucket_interval", "replan_threshold",
+               "uuid", "committed_height"]
+
+
+def _table_columns(fn):
+    """column names of the CREATE TABLE statement built by `fn` in store.rs"""
+    body = _fn_body(STORE, fn)
+    m = re.search(r"CREATE TABLE IF NOT EXISTS \{\}\s*\((.*?)\)\"\s*,", body, flags=re.S)
+    if not m:
+        raise SrcgenError("store.rs %s: CREATE TABLE statement not found" % fn)
+    cols = []
+    depth = 0
+    for line in m.group(1).split("\n"):
+        l = line.strip()
+        if not l:
+            continue
+        if depth == 0 and not re.match(r"(PRIMARY KEY|FOREIGN KEY|REFERENCES|UNIQUE|CHECK|CONSTRAINT)\b", l):
+            w = re.match(r"([a-z_]+)\s+(INTEGER|TEXT|BLOB)\b", l)
+            if not w:
+                raise SrcgenError("store.rs %s: unexpected column line %r" % (fn, l))
+            cols.append(w.group(1))
+        depth += l.count("(") - l.count(")")
+    return cols
+
+
+def _table_names():
+    src = srcgen.read(OI)
+    m = re.search(r"static TABLES: Tables = Tables \{(.*?)\};", src, flags=re.S)
+    if not m:
+        raise SrcgenError("orchard_ironwood.rs: TABLES not found")
+    names = dict(re.findall(r"(\w+):\s*\"([A-Za-z0-9_]+)\"", m.group(1)))
+    for k in ("migrations", "transactions", "transaction_deps"):
+        if k not in names:
+            raise SrcgenError("orchard_ironwood.rs TABLES: %s missing" % k)
+    return names
+
 ENGINE = "zcash_pool_migration/src/engine.rs"
 
 
@@ -86,8 +132,34 @@ class C18(Config):
         "store_roundtrip is proved on the row model for the transaction and dependency tables; denomination / preparation-plan / nullifier / PCZT columns are covered by the SQLite round trips only",
     ]
 
+    def harness_args(self, tier, seed, search=False):
+        a = Config.harness_args(self, tier, seed, search)
+        try:
+            n = _table_names()
+            a += ["--tables", "%s,%s,%s" % (n["migrations"], n["transactions"], n["transaction_deps"])]
+        except SrcgenError:
+            pass            # reported by gen(); the harness falls back to its built-in names
+        return a
+
     @staticmethod
     def gen():
+        names = _table_names()
+        for fn, want in (("create_transactions_sql", TX_COLUMNS), ("create_transaction_deps_sql", DEP_COLUMNS),
+                         ("create_migrations_sql", MIG_COLUMNS)):
+            got = _table_columns(fn)
+            if got != want:
+                raise SrcgenError("store.rs %s: columns %s differ from the modelled %s" % (fn, got, want))
+        _order(_fn_body(STORE, "read_transactions"), ["ORDER BY transfer_id", "MigrationTxKind::from_stored(", "MigrationTxState::from_stored(",
+                                                      "read_deps(", "unsatisfiable_at / unsatisfiable_kind disagree"], "store.rs read_transactions")
+        _order(_fn_body(STORE, "read_deps"), ["SELECT depends_on_transfer_id", "ORDER BY ordinal"], "store.rs read_deps")
+        _order(_fn_body(STORE, "resolve_migration_id"), ["status NOT IN", "terminal_status_sql_list()"], "store.rs resolve_migration_id")
+        q = lambda l: "[" + "; ".join('"%s"' % c for c in l) + "]"
+        srcgen.write_gen("C18Store", "From Coq Require Import String List.\nImport ListNotations.\nLocal Open Scope string_scope.\n"
+                         "Definition TX_COLUMNS : list string := %s.\nDefinition DEP_COLUMNS : list string := %s.\n"
+                         "Definition TABLE_MIGRATIONS : string := \"%s\".\nDefinition TABLE_TRANSACTIONS : string := \"%s\".\n"
+                         "Definition TABLE_TRANSACTION_DEPS : string := \"%s\".\n"
+                         % (q(_table_columns("create_transactions_sql")), q(_table_columns("create_transaction_deps_sql")),
+                            names["migrations"], names["transactions"], names["transaction_deps"]))
         depth = srcgen.int_const(SCHED, "PROVABLE_ANCHOR_DEPTH")
         cap = srcgen.int_const(ZIP318, "ANCHOR_AGE_CAP")
         mean = _nonzero_const(ZIP318, "TRANSFER_DELAY_MEAN")
@@ -113,9 +185,21 @@ class C18(Config):
                 "broadcast_failure_at()", "clear_broadcast_failure(", "AdvanceStep::Reevaluate", "overdue_shift_tolerance(",
                 "state.next_step(targets, &set_aside)", "state.shift_schedule(", "broaden_after_discovery(", "store.replace_migration(state)"],
                "satisfiability.rs advance_migration")
+        emod = srcgen.int_const(ZIP318, "EXPIRY_MODULUS")
+        ewin = srcgen.int_const(ZIP318, "EXPIRY_WINDOW", {"EXPIRY_MODULUS": emod})
+        body = _fn_body(ZIP318, "expiry_height")
+        if not re.search(r"h\s*-\s*\(h\s*%\s*EXPIRY_MODULUS\)\)\s*\+\s*EXPIRY_WINDOW", body):
+            raise SrcgenError("zip318.rs expiry_height: unexpected shape")
+        _order(_fn_body(ENGINE, "rebuild_expired_transfer_inner"),
+               ["AnchorIntervalMismatch", "chain_tip_height()", "UnknownTransaction", "NotATransfer", "RebuildError::Unsatisfiable",
+                "RebuildError::NotExpired", "chain_base", ".max(target_height)", "transfer_delay().draw(", "scheduling::expiry_height(scheduled_height)",
+                "tx.scheduled_height = scheduled_height", "tx.expiry_height = expiry_height", "tx.anchor_boundary = Some(anchor_boundary)",
+                "tx.txid = txid", "tx.state = new_state"],
+               "engine.rs rebuild_expired_transfer_inner")
         srcgen.write_gen("C18Consts", srcgen.z_defs([
             ("PROVABLE_ANCHOR_DEPTH", depth), ("ANCHOR_AGE_CAP", cap),
-            ("TRANSFER_DELAY_MEAN", mean), ("ZIP318_INTERVAL", ivl)]))
+            ("TRANSFER_DELAY_MEAN", mean), ("ZIP318_INTERVAL", ivl),
+            ("EXPIRY_MODULUS", emod), ("EXPIRY_WINDOW", ewin)]))
 
 
 CONFIG = C18()
